@@ -52,7 +52,7 @@ func VerifC01Step() {
 	universe = append(universe, k)
 	x := nd.StringN("op.x", 1)
 	old, existed := m.get(k)
-	switch nd.Choice("op", 7) {
+	switch nd.Choice("op", 8) {
 	case 0: // PutItem replaces the whole item (attributes not mentioned disappear)
 		nd.Reach("put")
 		nd.Assert(vPut(c, m.full(k, map[string]string{"v": x})) == nil, "C01-put-noerr")
@@ -111,7 +111,81 @@ func VerifC01Step() {
 		_, err := c.UpdateItem(vCtx, &dynamodb.UpdateItemInput{TableName: aws.String(vTbl), Key: k.item(withRange),
 			UpdateExpression: aws.String(expr), ExpressionAttributeValues: vItem{":x": vS(x)}})
 		nd.Assert(err != nil, "C01-update-removing-a-key-attribute-is-rejected")
+	case 7: // an UpdateItem that adds nothing still upserts: REMOVE of an attribute the item may not have
+		nd.Reach("update-remove")
+		out, err := c.UpdateItem(vCtx, &dynamodb.UpdateItemInput{TableName: aws.String(vTbl), Key: k.item(withRange),
+			UpdateExpression: aws.String("REMOVE w"), ReturnValues: types.ReturnValueAllNew})
+		nd.Assert(err == nil, "C01-update-remove-noerr")
+		na := map[string]string{}
+		if existed {
+			for a, v := range old {
+				if a != "w" {
+					na[a] = v
+				}
+			}
+		} else {
+			nd.Reach("update-remove-creates")
+		}
+		m.put(k, na)
+		if err == nil {
+			nd.Assert(vSameItem(out.Attributes, m.full(k, na)), "C01-update-remove-returns-new-item")
+		}
 	}
 	vC01Battery(c, m, universe, "C01-step")
+	nd.Reach("end")
+}
+
+// VerifC01Typed: the same map semantics on tables whose hash and sort keys have different scalar types
+// (N+S, S+N, N+N, S+B): three writes under keys that are different values of their types although their
+// texts look alike ("10" / "10.0" as strings, 1 / 2 as numbers), then a delete; every key keeps its own item.
+func VerifC01Typed() {
+	schema := nd.Choice("schema", 4)
+	ht := []types.ScalarAttributeType{types.ScalarAttributeTypeN, types.ScalarAttributeTypeS, types.ScalarAttributeTypeN, types.ScalarAttributeTypeS}[schema]
+	rt := []types.ScalarAttributeType{types.ScalarAttributeTypeS, types.ScalarAttributeTypeN, types.ScalarAttributeTypeN, types.ScalarAttributeTypeB}[schema]
+	c := NewClient()
+	in := generateAddTableInput(vTbl, "p", "s")
+	in.AttributeDefinitions[0].AttributeType = ht
+	in.AttributeDefinitions[1].AttributeType = rt
+	_, err := c.CreateTable(vCtx, in)
+	nd.Assert(err == nil, "setup-createtable")
+	val := func(t types.ScalarAttributeType, i int) types.AttributeValue {
+		switch t {
+		case types.ScalarAttributeTypeN:
+			return vN([]string{"1", "2", "10"}[i])
+		case types.ScalarAttributeTypeB:
+			return &types.AttributeValueMemberB{Value: [][]byte{{'1', '0'}, {'1', '0', '.', '0'}, {'1', 'e', '1'}}[i]}
+		}
+		return vS([]string{"10", "10.0", "1e1"}[i])
+	}
+	// three keys sharing the hash value, differing in the sort value; and one more differing in the hash value
+	keys := []vItem{}
+	for i := 0; i < 3; i++ {
+		keys = append(keys, vItem{"p": val(ht, 0), "s": val(rt, i)})
+	}
+	keys = append(keys, vItem{"p": val(ht, 1), "s": val(rt, 0)})
+	for i, k := range keys {
+		it := vItem{"p": k["p"], "s": k["s"], "v": vS(string(rune('a' + i)))}
+		nd.Assert(vPut(c, it) == nil, "C01-typed-put-noerr")
+	}
+	for i, k := range keys {
+		got, gerr := vGet(c, k)
+		v, _ := vGetS(got, "v")
+		nd.Assert(gerr == nil && v == string(rune('a'+i)), "C01-typed-get-own-item")
+	}
+	victim := nd.Choice("victim", 4)
+	_, derr := c.DeleteItem(vCtx, &dynamodb.DeleteItemInput{TableName: aws.String(vTbl), Key: keys[victim]})
+	nd.Assert(derr == nil, "C01-typed-delete-noerr")
+	for i, k := range keys {
+		got, gerr := vGet(c, k)
+		if i == victim {
+			nd.Assert(gerr == nil && len(got) == 0, "C01-typed-deleted-is-gone")
+		} else {
+			v, _ := vGetS(got, "v")
+			nd.Assert(gerr == nil && v == string(rune('a'+i)), "C01-typed-others-untouched")
+		}
+	}
+	d, derr2 := c.DescribeTable(vCtx, &dynamodb.DescribeTableInput{TableName: aws.String(vTbl)})
+	nd.Assert(derr2 == nil && d.Table.ItemCount != nil && *d.Table.ItemCount == 3, "C01-typed-itemcount")
+	vInvariant(c, "C01-typed")
 	nd.Reach("end")
 }
